@@ -76,6 +76,16 @@ func wrap(op model.VectorOperator, expr parser.Expr, opts *query.Options) model.
 	if expr != nil {
 		m.name += " <" + trunc(expr.String(), 60) + ">"
 	}
+	// Operators which feed the same consumer are paired by position in the batch.
+	if _, kids := op.Explain(); len(kids) >= 2 {
+		for _, k := range kids {
+			if km, ok := k.(*monitored); ok {
+				km.mu.Lock()
+				km.hasSibling = true
+				km.mu.Unlock()
+			}
+		}
+	}
 	return m
 }
 
@@ -101,6 +111,9 @@ type monitored struct {
 	seriesOK bool
 	emitted  int // step vectors emitted so far
 	ended    bool
+	// hasSibling: the consumer of this operator has further inputs, which it pairs with
+	// this one by position; set while the plan is built.
+	hasSibling bool
 }
 
 func (m *monitored) Explain() (string, []model.VectorOperator) { return m.next.Explain() }
@@ -196,12 +209,14 @@ func (m *monitored) check(ctx context.Context, out []model.StepVector) {
 	m.emitted += len(out)
 	series := m.series
 	seriesOK := m.seriesOK
+	hasSibling := m.hasSibling
 	m.mu.Unlock()
 	if base+len(out) > total {
 		m.col.violate("%s: emitted %d step vectors for a window of %d steps", m.name, base+len(out), total)
 	}
-	// a batch that is not the last one must be full, otherwise positional consumers mis-pair
-	if m.batch > 0 && base+len(out) < total && len(out) != m.batch {
+	// "no step skipped relative to its siblings": consumers pair their inputs by position in
+	// the batch, so an input that has siblings must fill every batch but its last one
+	if hasSibling && m.batch > 0 && base+len(out) < total && len(out) != m.batch {
 		m.col.violate("%s: batch starting at step %d carries %d vectors (batch size %d, %d steps in total): a step was skipped", m.name, base, len(out), m.batch, total)
 	}
 	if !seriesOK {
